@@ -289,7 +289,8 @@ def translate():
             if not any(src.find(fn, p) for p in pats):
                 fails.append(msg)
         except rsfacts.Unreadable as ex:
-            fails.append("%s (%s)" % (msg, ex))
+            if not any(rsfacts.find_anywhere(src, p) for p in pats):   # a private function renamed: the same code anywhere in the file
+                fails.append("%s (%s)" % (msg, ex))
     need(H, "handle_ping_frame", ["if $p . ack { ...{12} return MuxResult :: Continue ; } self . flood_detector . $c"],
          "h2.rs: handle_ping_frame no longer starts by leaving on a PING ACK (model: only a PING without ACK is counted)")
     need(H, "handle_settings_frame", ["if $s . ack { ...{70} return MuxResult :: Continue ; } self . flood_detector . $c"],
@@ -433,8 +434,18 @@ def flood_sites(H, order):
         try:
             nf = " " + H.body(fn) + " "
         except rsfacts.Unreadable as ex:
-            fails.append("unreadable: h2.rs %s" % ex)
-            continue
+            # the handler goes by another name: the function that counts into that field
+            alt = None
+            for pat in ("self . flood_detector . %s += 1 ;" % fields[th],
+                        "self . flood_detector . %s = self . flood_detector . %s . saturating_add ( 1 ) ;" % (fields[th], fields[th])):
+                if rsfacts.find_anywhere(H, pat):
+                    alt = rsfacts.m_name[0]
+                    break
+            if alt is None:
+                fails.append("unreadable: h2.rs %s" % ex)
+                continue
+            fn = alt
+            nf = " " + H.body(fn) + " "
         direct = re.compile(r" self \. flood_detector \. %s (?:\+= 1|= self \. flood_detector \. %s \. (?:saturating|wrapping)_add \( 1 \)) ; " % (F, F))
         m = direct.search(nf)
         sized_bump = re.search(r" self \. flood_detector \. %s \+= (?!1 ;)" % F, nf)
